@@ -219,6 +219,39 @@ func generate(rng *rand.Rand, tier string) []interface{} {
 		ins = append(ins, input{Kind: "nary", Hosts: hostPattern(rng, n, 0), N: 2, Root: n + 3})
 		ins = append(ins, input{Kind: "nary", Hosts: hostPattern(rng, n, 0), N: 0, Root: -1})
 	}
+	// the host-avoiding search of the big generator: every placement of the members on two hosts
+	// (first member on host 0, by symmetry) with as many nodes as members, and samples on three hosts
+	maxTwo := 10
+	if tier != "quick" {
+		maxTwo = 12
+	}
+	for n := 2; n <= maxTwo; n++ {
+		for pat := 0; pat < 1<<uint(n-1); pat++ {
+			h := make([]int, n)
+			for i := 1; i < n; i++ {
+				h[i] = (pat >> uint(i-1)) & 1
+			}
+			for bf := 1; bf <= 3; bf++ {
+				ins = append(ins, input{Kind: "big", Hosts: h, N: bf, Nodes: n})
+			}
+		}
+	}
+	three := 150
+	if tier != "quick" {
+		three = 3000
+	}
+	for i := 0; i < three; i++ {
+		n := 5 + rng.Intn(12)
+		h := make([]int, n)
+		for j := range h {
+			h[j] = rng.Intn(3)
+		}
+		nodes := n
+		if rng.Intn(4) == 0 {
+			nodes = 1 + rng.Intn(2*n)
+		}
+		ins = append(ins, input{Kind: "big", Hosts: h, N: 1 + rng.Intn(4), Nodes: nodes})
+	}
 	// sampled large part
 	samples := 60
 	maxBig := 300
@@ -252,6 +285,7 @@ func main() {
 		Prop:   "C12",
 		Import: "Onet.Corr.C12",
 		Rule: "exhaustive over roster size x branching factor x root (n-ary) and x host pattern x node count (big), " +
+			"every two-host placement of up to 10 (thorough 12) members with nodes = members, samples on three hosts, " +
 			"plus seeded samples of larger sizes; non-trivial = the generated tree has more than one node; distinct = distinct Coq case term",
 		Shard:    300,
 		Generate: generate,
